@@ -132,4 +132,20 @@ PROPS = {
              'queued events, submachine levels) as the throw point, one faulty operation per history (quick) / two (thorough), every continuation to closure; '
              'non-trivial when a fault was injected or follows one',
     ),
+    'C13': dict(
+        level='model_checking', design_ref='5/C13', custom='lockstep', oracle=None, engine='lockstep',
+        technique='lock-step exploration of the product of all seven back-end configurations under identical operations and environment answers; equality of normalised observations',
+        quick=[dict(zoo=z, cfgs=ALL, ops=pe_all(z), compare_ids=True) for z in ('flat_c', 'hier2_c', 'ortho_c', 'entry_c', 'histS')] +
+              [dict(zoo='compl', cfgs=ALL, ops=['start', 'pe:1', 'pe:2', 'pe:3', 'pe:4', 'eq:4', 'xq'], qbound=2),
+               dict(zoo='defer_c', cfgs=ALL, ops=['start', 'pe:1', 'pe:2', 'pe:3', 'pe:4', 'pe:5'], qbound=2),
+               dict(zoo='hier2_c', cfgs=ALL, ops=['start', 'pe:1', 'pe:3', 'eq:1', 'xq'], submits=1, guards=1, qbound=2)],
+        thorough=[dict(zoo=z, cfgs=ALL, ops=pe_all(z) + ['eq:1', 'xq'], compare_ids=True) for z in ('flat_c', 'hier2_c', 'ortho_c', 'entry_c', 'histN', 'histA', 'histS', 'hier3')] +
+                 [dict(zoo='compl', cfgs=ALL, ops=['start', 'stop', 'pe:1', 'pe:2', 'pe:3', 'pe:4', 'eq:4', 'eq:1', 'xq', 'xs'], qbound=2),
+                  dict(zoo='defer_c', cfgs=ALL, ops=['start', 'pe:1', 'pe:2', 'pe:3', 'pe:4', 'pe:5', 'eq:3', 'xq'], qbound=3),
+                  dict(zoo='block', cfgs=ALL, ops=['start', 'pe:1', 'pe:2', 'pe:3', 'pe:4', 'pe:5', 'pe:6', 'eq:4', 'xq'], qbound=2),
+                  dict(zoo='hier2_c', cfgs=ALL, ops=['start', 'pe:1', 'pe:2', 'pe:3', 'eq:1', 'xq'], submits=1, guards=2, qbound=2),
+                  dict(zoo='flat_c', cfgs=ALL, ops=['start', 'pe:1', 'pe:2', 'pe:4', 'eq:3', 'xq', 'xs'], submits=2, guards=1, qbound=2)],
+        rule='product exploration of b, bc, bq, b11, m, mf, mc on machines of the common feature subset: every reachable product state x event x '
+             'guard valuation (x one nested submission); an execution is non-trivial when a callback ran',
+    ),
 }
